@@ -179,12 +179,12 @@ def explicit_branch(prog, run, fi, pf, pm, f, cfg, label, p_freq, p_order, tF, k
         iscl = [c for c in ast.walk(t) if isinstance(c, ast.Call) and astq.callee_name(prog, pf, c) in ("numpy.isclose", "numpy.allclose", "math.isclose")][0]
         a0, b0 = iscl.args[0], iscl.args[1]
         acc0 = astq.access_path(a0, tables)
-        okA = acc0 is not None and acc0.table == tF and astq.dump(acc0.row) == astq.dump(ref.row) and astq.dump(acc0.col) == astq.dump(ref.col)
+        okA = acc0 is not None and acc0.table == tF and _same(acc0.row, ref.row) and _same(acc0.col, ref.col)
         okB = isinstance(b0, ast.Name) and b0.id == freqvar
         if not okB and acc0 is None:
             # arguments the other way round
             acc1 = astq.access_path(b0, tables)
-            okA = acc1 is not None and acc1.table == tF and astq.dump(acc1.row) == astq.dump(ref.row)
+            okA = acc1 is not None and acc1.table == tF and _same(acc1.row, ref.row)
             okB = isinstance(a0, ast.Name) and a0.id == freqvar
         run.ob("R-own-freq", fi.qual, "tested pole is the one that is appended", okA, f"isclose first argument `{astq.src(iscl.args[0], 60)}`", astq.src(iscl.args[0], 60), file=f, node=main_if, config=cfg)
         run.ob("R-own-freq", fi.qual, "reference of the closeness test is the loop's own requested frequency", okB,
@@ -194,6 +194,13 @@ def explicit_branch(prog, run, fi, pf, pm, f, cfg, label, p_freq, p_order, tF, k
         run.ob("R-own-freq", fi.qual, "relative tolerance is the rtol parameter", isinstance(rt, ast.Name) and rt.id == "rtol", f"rtol={astq.src(rt) if rt is not None else 'default'}",
                astq.src(rt) if rt is not None else "default", file=f, node=main_if, config=cfg)
         slots(prog, run, fi, pf, f, cfg, seen_tables, kinds)
+
+
+def _same(a, b):
+    """two optional index expressions denote the same thing (None = the whole axis)"""
+    if a is None or b is None:
+        return a is None and b is None
+    return astq.dump(a) == astq.dump(b)
 
 
 def slots(prog, run, fi, pf, f, cfg, seen_tables, kinds):
